@@ -79,7 +79,7 @@ func genFacts(repo, outdir string) {
 		return a.expr < b.expr
 	})
 	var sb strings.Builder
-	sb.WriteString("-- GENERATED from /repo by the translator (go/packages); do not edit\nnamespace Gen\n\n")
+	sb.WriteString("-- GENERATED from /repo by the translator (go/packages); do not edit\nimport Yv.Spec.GenOps\nnamespace Gen\nopen GenOps\n\n")
 	sb.WriteString("/-- every `range` over a map in non-test code: (package, function, ranged expression) -/\n")
 	sb.WriteString("def mapRangeSites : List (String × String × String) := [\n")
 	for i, s := range sites {
@@ -97,6 +97,26 @@ func genFacts(repo, outdir string) {
 				sb.WriteString(", ")
 			}
 			fmt.Fprintf(&sb, "%q", c)
+		}
+		sb.WriteString("]\n\n")
+		// the same sequence classified in the vocabulary of Yv/Spec/GenOps.lean (unknown calls are fallible: fail closed)
+		fmt.Fprintf(&sb, "def ops_%s : List Op := [", fn)
+		for i, c := range genCalls[fn] {
+			if i > 0 {
+				sb.WriteString(", ")
+			}
+			switch {
+			case strings.HasPrefix(c, "os.Create("):
+				sb.WriteString(".create")
+			case strings.HasPrefix(c, "f.WriteString("):
+				fmt.Fprintf(&sb, ".write %v", c == "f.WriteString(b.CodeLast)")
+			case strings.HasPrefix(c, "b.WriteFile("):
+				sb.WriteString(".write true") // the template; that it ends with the epilogue slot is a separate fact below
+			case strings.HasPrefix(c, "fmt.Errorf("), strings.HasPrefix(c, "f.Close("):
+				sb.WriteString(".other")
+			default:
+				sb.WriteString(".fallible")
+			}
 		}
 		sb.WriteString("]\n\n")
 	}
